@@ -313,6 +313,54 @@ func c17Scenarios(tier string) []*Scenario {
 			}
 		}
 	}
+	// replicas added by a scale request (one at a time, two at once, from one replica or from two): each command
+	// runs in its own templated working directory with its own replica number
+	for _, step := range [][2]int{{1, 2}, {1, 3}, {2, 4}} {
+		step := step
+		pc := PC{Name: "p", Lines: []string{"working_dir: \"@DIR@/r{{.PC_REPLICA_NUM}}\""}}
+		if step[0] > 1 {
+			pc.Lines = append(pc.Lines, fmt.Sprintf("replicas: %d", step[0]))
+		}
+		files := map[string]string{}
+		for i := 0; i < 4; i++ {
+			files[fmt.Sprintf("r%d/.keep", i)] = ""
+		}
+		name := "p"
+		if step[0] > 1 {
+			name = "p-0"
+		}
+		up := func(w *World) bool { return len(w.procs) >= step[0] }
+		sc := &Scenario{
+			ID:    fmt.Sprintf("c17-scale-%d-to-%d", step[0], step[1]),
+			YAML:  projectYAML(nil, pc),
+			Files: files,
+			Procs: map[string]*ProcScript{"p": {}},
+			K:     0, EnvCost: 1, TickBudget: 1,
+			API: [][]APICall{{{Op: "scale", Name: name, N: step[1], When: up}}},
+		}
+		sc.Check = func(w *World) []Violation {
+			var vs []Violation
+			n := 0
+			for _, f := range w.procs {
+				if strings.HasPrefix(f.Key, "?") {
+					vs = append(vs, viol("C17", "injected:none", "a command was launched without the injected variables: %v", f.Args))
+					continue
+				}
+				n++
+				if want := filepath.Join(w.dir, fmt.Sprintf("r%d", f.Num)); f.Dir != want {
+					vs = append(vs, viol("C17", "dir:replica", "replica %d (scale %d -> %d) runs in %s, its configured working directory is %s", f.Num, step[0], step[1], strings.TrimPrefix(f.Dir, w.dir), strings.TrimPrefix(want, w.dir)))
+				}
+				if e := effectiveEnv(f.Env); e["PC_REPLICA_NUM"] != fmt.Sprint(f.Num) {
+					vs = append(vs, viol("C17", "injected:PC_REPLICA_NUM", "replica %d receives PC_REPLICA_NUM=%q", f.Num, e["PC_REPLICA_NUM"]))
+				}
+			}
+			if findEvent(w.pre(), 0, func(e Event) bool { return e.Kind == "api-ret" && !e.Flag }) >= 0 && n < step[1] && w.Outcome != "deadlock" {
+				vs = append(vs, viol("C17", "launch-count", "%d commands launched after scaling %d -> %d", n, step[0], step[1]))
+			}
+			return vs
+		}
+		scs = append(scs, sc)
+	}
 	// two processes with their own per-process variables, every size of the global list (g entries
 	// from the file, e more from env_cmds): each command receives its own process's variables at the
 	// first launch and at the relaunch, whichever process was created or launched first
